@@ -89,6 +89,8 @@ func validateFlattenInMessages(messages []*protogen.Message) error {
 			if err := validateFlattenMarshalJSONConflict(msg); err != nil {
 				return err
 			}
+		} else if err := validateSingleMarshalJSONFeature(msg); err != nil {
+			return err
 		}
 
 		// Validate nested messages
@@ -108,6 +110,26 @@ func validateFlattenMarshalJSONConflict(msg *protogen.Message) error {
 			"message %s has both flatten and %s -- "+
 				"only one MarshalJSON-generating feature is supported per message",
 			msg.GoIdent.GoName, strings.Join(conflicts, ", "),
+		)
+	}
+	return nil
+}
+
+// validateSingleMarshalJSONFeature rejects a message on which two different encoding
+// features would each generate MarshalJSON and UnmarshalJSON: the package would not compile.
+func validateSingleMarshalJSONFeature(msg *protogen.Message) error {
+	seen := make(map[string]bool)
+	var features []string
+	for _, feature := range detectMarshalJSONConflicts(msg) {
+		if !seen[feature] {
+			seen[feature] = true
+			features = append(features, feature)
+		}
+	}
+	if len(features) > 1 {
+		return fmt.Errorf(
+			"message %s has %s -- only one MarshalJSON-generating feature is supported per message",
+			msg.GoIdent.GoName, strings.Join(features, " and "),
 		)
 	}
 	return nil
@@ -136,6 +158,17 @@ func detectMarshalJSONConflicts(msg *protogen.Message) []string {
 		}
 		if annotations.HasBytesEncodingAnnotation(field) {
 			conflicts = append(conflicts, "bytes_encoding")
+		}
+		// A map whose values are unwrap wrappers is coded by the message's unwrap MarshalJSON
+		if field.Desc.IsMap() && field.Message != nil && len(field.Message.Fields) > 1 {
+			if valueMsg := field.Message.Fields[1].Message; valueMsg != nil && annotations.FindUnwrapField(valueMsg) != nil {
+				conflicts = append(conflicts, "unwrap")
+			}
+		}
+	}
+	for _, oneof := range msg.Oneofs {
+		if annotations.GetOneofConfig(oneof) != nil {
+			conflicts = append(conflicts, "oneof_config")
 		}
 	}
 
